@@ -247,16 +247,27 @@ Definition d_load := from_serial HP HP hid (hp_type []).
 Definition d_save := to_serial HP HP hid (hp_type []).
 Definition d_norm := sdoc_norm HP HP hid (hp_type []) (sop_norm HP).
 Definition d_eqb := sdoc_eqb HP N.eqb.
+(* The property promises every node, every edge and all metadata of the document, not the place of an edge in the
+   `edges` array (the format gives that place no meaning, and the text says "every edge", a statement about the
+   collection).  Documents are therefore compared with [sdoc_sameb]: nodes and metadata position by position -- a node
+   of a document IS its index: parents, edges and metadata refer to it and the order of the children of a node is
+   index order; which index a node has after loading / saving is fixed by C02 / C03, C05 adds nothing to it -- and
+   the edge lists as MULTISETS ([perm_eqb]: an edge lost, duplicated, invented or moved to other ports / nodes still
+   fails).  props/C05.v: [C05_doc_monitor_sound] says what a passing clause means, [C05_reserial_preserves_any_order]
+   that every implementation listing the links in any order passes, [C05_doc_positional_implies_multiset] that nothing
+   accepted before is rejected now.  Embedded documents (function constants) are interned by the harness from a
+   canonical form with the edge list sorted, for the same reason. *)
+Definition d_same := sdoc_sameb HP N.eqb.
 Inductive dcase :=
 (* input document (walk of the validated SerialHugr), load raised?, walk of the re-saved document, and the
    public-API check that every edge written without a source offset is an order link of the loaded HUGR *)
 | CDoc (s : sdoc') (raised : bool) (reser : sdoc') (order_links_ok : bool).
 Definition dcorr (c : dcase) : bool :=
-  match c with CDoc s raised reser _ => negb raised && d_eqb reser (d_save (d_load s)) end.
+  match c with CDoc s raised reser _ => negb raised && d_same reser (d_save (d_load s)) end.
 Definition dmon (c : dcase) : bool :=
   match c with
   | CDoc s raised reser ok =>
-      if edges_wf HP HP hid (hp_type []) s then negb raised && ok && d_eqb reser (d_norm s) &&
+      if edges_wf HP HP hid (hp_type []) s then negb raised && ok && d_same reser (d_norm s) &&
          Nat.eqb (length (sd_edges HP reser)) (length (sd_edges HP s))
       else true
   end.
